@@ -1,11 +1,110 @@
-(* C01 — property theorems only.  Each is closed by [exact] of a lemma from Proofs/ or TT/. *)
+(* C01 — TT arithmetic equals dense linear algebra.  Property theorems only: each is closed by
+   [exact] of a lemma from TT/ or Proofs/, followed by Print Assumptions.
+   R ranges over every commutative ring with involution (instances: Z, Z[i]; the reals and
+   complex numbers satisfy the same laws); orders, mode sizes and ranks are unbounded.
+   [elem cs xs ys] IS the dense tensor entry: the (0,0) entry of the product of the rank
+   matrices selected by the indices (first sentence of the property). *)
 From Coq Require Import ZArith List Lia Arith.
 Import ListNotations.
-Require Import Ring Sums Matrix Core Chain.
+Require Import Ring Sums Matrix Core Chain TTOps AddProof OpsProof.
+Open Scope cr_scope.
 
+(* t + u *)
+Theorem C01_add (R : cring) (cs es : list (core R)) xs ys :
+  cs <> [] -> length es = length cs -> length xs = length cs -> length ys = length cs ->
+  wf cs -> wf es ->
+  elem (tadd cs es) xs ys = elem cs xs ys + elem es xs ys.
+Proof. exact (elem_tadd cs es xs ys). Qed.
+Print Assumptions C01_add.
+
+Theorem C01_add_wf (R : cring) (cs es : list (core R)) :
+  cs <> [] -> length es = length cs -> wf cs -> wf es -> wf (tadd cs es).
+Proof. exact (wf_tadd cs es). Qed.
+Print Assumptions C01_add_wf.
+
+(* t - u *)
+Theorem C01_sub (R : cring) (cs es : list (core R)) xs ys :
+  cs <> [] -> length es = length cs -> length xs = length cs -> length ys = length cs ->
+  wf cs -> wf es ->
+  elem (tsub cs es) xs ys = elem cs xs ys - elem es xs ys.
+Proof. exact (elem_tsub cs es xs ys). Qed.
+Print Assumptions C01_sub.
+
+(* s * t, t * s *)
+Theorem C01_smul (R : cring) (s : R) (cs : list (core R)) xs ys :
+  cs <> [] -> length xs = length cs -> length ys = length cs ->
+  elem (smul s cs) xs ys = s * elem cs xs ys.
+Proof. exact (elem_smul s cs xs ys). Qed.
+Print Assumptions C01_smul.
+
+(* t @ u : sum over the shared indices *)
 Theorem C01_matmul (R : cring) (cs ds : list (core R)) xs zs :
   length ds = length cs -> length xs = length cs -> length zs = length cs ->
   linked ds 1%nat -> rl_pos ds ->
-  elem (tmul cs ds) xs zs = msum (cols cs) (fun ys => (elem cs xs ys * elem ds ys zs)%cr).
+  elem (tmul cs ds) xs zs = msum (cols cs) (fun ys => elem cs xs ys * elem ds ys zs).
 Proof. exact (elem_tmul cs ds xs zs). Qed.
 Print Assumptions C01_matmul.
+
+Theorem C01_matmul_linked (R : cring) (cs ds : list (core R)) f1 f2 :
+  length ds = length cs -> linked cs f1 -> linked ds f2 -> linked (tmul cs ds) (f1 * f2).
+Proof. exact (linked_tmul cs ds f1 f2). Qed.
+Print Assumptions C01_matmul_linked.
+
+(* transpose of all cores, with or without conjugation *)
+Theorem C01_transpose (R : cring) cj (cs : list (core R)) xs ys : length xs = length ys ->
+  elem (ttranspose cj (repeat true (length cs)) cs) xs ys =
+  if cj then cconj R (elem cs ys xs) else elem cs ys xs.
+Proof. exact (elem_transpose_all cj cs xs ys). Qed.
+Print Assumptions C01_transpose.
+
+(* transpose of a subset of the cores exchanges exactly the selected index pairs *)
+Theorem C01_transpose_subset (R : cring) (cs : list (core R)) sel xs ys i j :
+  length sel = length cs -> length xs = length cs -> length ys = length cs ->
+  chain (ttranspose false sel cs) xs ys i j = chain cs (pick sel ys xs) (pick sel xs ys) i j.
+Proof. exact (chain_ttranspose cs sel xs ys i j). Qed.
+Print Assumptions C01_transpose_subset.
+
+(* conj *)
+Theorem C01_conj (R : cring) (cs : list (core R)) xs ys :
+  elem (tconj cs) xs ys = cconj R (elem cs xs ys).
+Proof. exact (elem_tconj cs xs ys). Qed.
+Print Assumptions C01_conj.
+
+(* norm(p=1): the core-wise row sums denote the column sums of the tensor *)
+Theorem C01_colsums (R : cring) (cs : list (core R)) ys i j : length ys = length cs ->
+  chain (map sumrows_core cs) (repeat 0%nat (length cs)) ys i j =
+  msum (rows cs) (fun xs => chain cs xs ys i j).
+Proof. exact (chain_sumrows cs ys i j). Qed.
+Print Assumptions C01_colsums.
+
+(* eye, unit, zeros *)
+Theorem C01_eye (R : cring) dims xs ys : length xs = length dims -> length ys = length dims ->
+  elem (@teye R dims) xs ys = rprod (map (fun p => dlt (fst p) (snd p)) (combine xs ys)).
+Proof. exact (elem_teye dims xs ys). Qed.
+Print Assumptions C01_eye.
+
+Theorem C01_unit (R : cring) dims inds xs : length inds = length dims -> length xs = length dims ->
+  elem (@tunit R dims inds) xs (repeat 0%nat (length dims)) =
+  rprod (map (fun p => dlt (fst p) (snd p)) (combine xs inds)).
+Proof. exact (elem_tunit dims inds xs). Qed.
+Print Assumptions C01_unit.
+
+Theorem C01_zeros (R : cring) rs ms ns xs ys :
+  @tzeros R rs ms ns <> [] -> length xs = length (@tzeros R rs ms ns) -> length ys = length (@tzeros R rs ms ns) ->
+  elem (@tzeros R rs ms ns) xs ys = 0.
+Proof. exact (elem_tzeros rs ms ns xs ys). Qed.
+Print Assumptions C01_zeros.
+
+(* ---- non-vacuity: concrete order-1, order-2 and complex instances meet the hypotheses ---- *)
+Definition ex_c1 : core ZIring := @mkcore ZIring 1 2 1 2 (fun _ x _ b => (Z.of_nat (x + 2 * b + 1), 1%Z)).
+Definition ex_c2 : core ZIring := @mkcore ZIring 2 2 1 1 (fun a x _ _ => (Z.of_nat (3 * a + x), (-2)%Z)).
+Definition ex_v1 : core ZIring := @mkcore ZIring 1 3 1 1 (fun _ x _ _ => (Z.of_nat x, 5%Z)).
+Example ex_wf2 : wf [ex_c1; ex_c2] /\ wf [ex_v1].
+Proof. repeat split; simpl; lia. Qed.
+Example ex_add_order1 :
+  elem (tadd [ex_v1] [ex_v1]) [2%nat] [0%nat] = (4, 10)%Z.
+Proof. vm_compute. reflexivity. Qed.
+Example ex_add_order2 :
+  elem (tadd [ex_c1; ex_c2] [ex_c1; ex_c2]) [1%nat; 1%nat] [0%nat; 0%nat] =
+  (elem [ex_c1; ex_c2] [1%nat; 1%nat] [0%nat; 0%nat] + elem [ex_c1; ex_c2] [1%nat; 1%nat] [0%nat; 0%nat]).
+Proof. vm_compute. reflexivity. Qed.
